@@ -80,6 +80,20 @@ impl Q {
     pub fn sub(self, o: Q) -> Q {
         self.add(o.neg())
     }
+    /// Exact difference, or None if it does not fit the representation.
+    pub fn checked_sub(self, o: Q) -> Option<Q> {
+        let a = self.n.checked_mul(o.d)?;
+        let b = o.n.checked_mul(self.d)?;
+        let d = self.d.checked_mul(o.d)?;
+        Some(Q::new(a.checked_sub(b)?, d))
+    }
+    /// |self - o| as f64: exact subtraction when it fits, floating point otherwise.
+    pub fn abs_diff_f64(self, o: Q) -> f64 {
+        match self.checked_sub(o) {
+            Some(d) => d.abs().to_f64(),
+            None => (self.to_f64() - o.to_f64()).abs(),
+        }
+    }
     pub fn mul(self, o: Q) -> Q {
         let g1 = gcd(self.n, o.d);
         let g2 = gcd(o.n, self.d);
